@@ -111,3 +111,41 @@ Example nonvacuous_run :
   C27_check 10 (nv_ops []) = false /\
   C27_check 10 (nv_ops [wa]) = false.
 Proof. vm_compute. repeat split; reflexivity. Qed.
+
+(* an announcer that already holds the group pointer updates the group between the check and
+   the delete region of the group cleanup: the re-check (local.go:262) keeps the group *)
+Definition cg_recheck_sched : list lbl :=
+  [LSpawn (CAnn 0 wa); LRun 0 []; LRun 0 [];
+   LSpawn (CAnn 0 wa2); LRun 1 [];
+   LTick 6; LCgStart [0%nat]; LCgStep;
+   LRun 1 [];
+   LCgStep; LCgStep].
+
+Example nonvacuous_group_recheck :
+  match exec (init 5) (firstn 8 cg_recheck_sched), exec (init 5) cg_recheck_sched with
+  | Some s1, Some s =>
+      smu s1 = Some (CgDelete 0 0 []) /\
+      smu s = None /\ gmap s = [(0, 0%nat)] /\ g_deleted (group_at s 0) = false /\
+      read_peers (group_at s 0) [0%nat] = [wa2] /\ g_last (group_at s 0) = 11
+  | _, _ => False
+  end.
+Proof. vm_compute. repeat split; reflexivity. Qed.
+
+(* the deleted-retry of getOrInitLockedPeerGroup (local.go:169-172): the group is deleted
+   between the announcer's lookup and its g.mu.Lock; it reloads and the announcement lands in
+   a new group *)
+Definition retry_sched : list lbl :=
+  [LSpawn (CAnn 0 wa); LRun 0 []; LRun 0 [];
+   LSpawn (CAnn 0 wa2); LRun 1 [];
+   LTick 6; LCgStart [0%nat]; LCgStep; LCgStep; LCgStep;
+   LRun 1 []; LRun 1 []; LRun 1 []].
+
+Example nonvacuous_deleted_retry :
+  match exec (init 5) (firstn 11 retry_sched), exec (init 5) retry_sched with
+  | Some s1, Some s =>
+      nth_error (threads s1) 1 = Some (PAnnLookup 0 wa2) /\
+      g_deleted (group_at s 0) = true /\ gmap s = [(0, 1%nat)] /\
+      read_peers (group_at s 1) [0%nat] = [wa2] /\ nth_error (threads s) 1 = Some (PDone [])
+  | _, _ => False
+  end.
+Proof. vm_compute. repeat split; reflexivity. Qed.
